@@ -384,7 +384,18 @@ def replay(steps, chans, initwin, pktsize, scale=1, high=None, low=None,
                     res['diverged'] = (f'step {i} {lbl}: {key}: code='
                                        f'{got[key]!r} model={want[key]!r}')
                     break
-            if res['diverged'] or got['err']:
+            if got['err']:
+                break
+            if res['diverged']:
+                # the rest of the schedule is carried out blindly: the
+                # monitors judge a complete execution, model or no model
+                for lbl2, _ in steps[i + 1:]:
+                    if w.pair.lost:
+                        break
+                    try:
+                        w.do(lbl2)
+                    except Exception:       # pylint: disable=broad-except
+                        break
                 break
         mid = w.l1()
         w.drain()
